@@ -695,6 +695,12 @@ func (fr *Frame) exec(st *State, g *Term) []retInfo {
 				if !ok {
 					break
 				}
+				// "x = x.Add(x, y)" with a math/big receiver: the method returns its receiver, so the variable holds the same
+				// pointer on every iteration - it is the value flowing in from outside the loop, not an arbitrary one
+				if ev, ok := fr.receiverInvariantPhi(phi, b, in); ok {
+					fr.vals[phi] = ev
+					continue
+				}
 				fr.vals[phi] = c.freshVal(bst, bg, phi.Type(), phi.Comment+"."+phi.Name())
 			}
 			for _, inv := range invs {
@@ -922,6 +928,54 @@ func (fr *Frame) loopMods(h *ssa.BasicBlock) map[string]bool {
 		}
 	}
 	return mods
+}
+
+// receiverInvariantPhi recognises a loop-header phi of a *big.Int / *big.Float variable whose every back-edge value is
+// the phi itself or the result of a receiver-returning math/big method called on the phi ("acc = acc.Add(acc, x)"):
+// such a variable holds the pointer that flows in from outside the loop on every iteration.
+func (fr *Frame) receiverInvariantPhi(phi *ssa.Phi, hb *ssa.BasicBlock, in []edgeIn) (Val, bool) {
+	if !isPtrTo(phi.Type(), isBigInt) && !isPtrTo(phi.Type(), isBigFloat) {
+		return Val{}, false
+	}
+	body := naturalLoop(hb)
+	var entry ssa.Value
+	for i, p := range hb.Preds {
+		e := phi.Edges[i]
+		if body[p] {
+			if e == ssa.Value(phi) {
+				continue
+			}
+			call, ok := e.(*ssa.Call)
+			if !ok {
+				return Val{}, false
+			}
+			callee := call.Common().StaticCallee()
+			if callee == nil || len(call.Common().Args) == 0 || call.Common().Args[0] != ssa.Value(phi) {
+				return Val{}, false
+			}
+			name := callee.String()
+			if !strings.HasPrefix(name, "(*math/big.Int).") && !strings.HasPrefix(name, "(*math/big.Float).") {
+				return Val{}, false
+			}
+			if !mutatingBigMethods[name[strings.LastIndex(name, ".")+1:]] {
+				return Val{}, false
+			}
+		} else {
+			if entry != nil && entry != e {
+				return Val{}, false
+			}
+			entry = e
+		}
+	}
+	if entry == nil {
+		return Val{}, false
+	}
+	if _, ok := fr.vals[entry]; !ok {
+		if _, isConst := entry.(*ssa.Const); !isConst {
+			return Val{}, false
+		}
+	}
+	return fr.get(entry), true
 }
 
 func naturalLoop(h *ssa.BasicBlock) map[*ssa.BasicBlock]bool {
